@@ -1140,6 +1140,24 @@ fn worker(args: &[String]) {
     out.flush().unwrap();
 }
 
+/// where an aborted child died: "alloc:<first automerge / hexane frame>" for an allocation failure,
+/// "stack-overflow", or the first automerge / hexane frame of the backtrace
+fn abort_site(stderr: &str) -> String {
+    let frame = stderr
+        .lines()
+        .filter_map(|l| l.trim().split_once(": ").map(|x| x.1.trim()))
+        .find(|f| (f.starts_with("automerge::") || f.starts_with("hexane::") || f.starts_with("<automerge::") || f.starts_with("<hexane::")) && !f.contains("GlobalAlloc"))
+        .unwrap_or("")
+        .to_string();
+    if stderr.contains("memory allocation of") {
+        format!("alloc:{}", frame)
+    } else if stderr.contains("overflowed its stack") {
+        "stack-overflow".to_string()
+    } else {
+        frame
+    }
+}
+
 fn run_job(job: &J, tmp: &str, tag: &str) -> Vec<J> {
     // runs the job in child processes; returns one record per item: {"o","n","peak","big","ms"}
     let items = job["items"].as_array().map(|a| a.len()).unwrap_or(0);
@@ -1155,8 +1173,12 @@ fn run_job(job: &J, tmp: &str, tag: &str) -> Vec<J> {
         j["start"] = json!(start);
         std::fs::write(&jobfile, j.to_string()).unwrap();
         let _ = std::fs::remove_file(&resfile);
+        // the child's stderr is kept: when it aborts, the allocation-failure message and the backtrace name the site
+        let errfile = format!("{}/err-{}.txt", tmp, tag);
+        let errf = std::fs::File::create(&errfile).unwrap();
         let mut child = std::process::Command::new(&exe).arg("worker").arg(&jobfile).arg(&resfile)
-            .stdout(std::process::Stdio::null()).stderr(std::process::Stdio::null()).spawn().unwrap();
+            .env("RUST_BACKTRACE", "1")
+            .stdout(std::process::Stdio::null()).stderr(errf).spawn().unwrap();
         // watchdog: kill the child if it makes no progress for 20 s
         let mut last_size = 0u64;
         let mut last_change = std::time::Instant::now();
@@ -1195,7 +1217,8 @@ fn run_job(job: &J, tmp: &str, tag: &str) -> Vec<J> {
         // the child died or hung at `started`
         let at = started.unwrap_or(start);
         if finished != Some(at) {
-            results[at] = json!({"done": at, "o": if status.is_none() { "timeout" } else { "abort" }, "n": 0, "peak": 0, "big": 0, "ms": 20000});
+            let site = if status.is_none() { String::new() } else { abort_site(&std::fs::read_to_string(&errfile).unwrap_or_default()) };
+            results[at] = json!({"done": at, "o": if status.is_none() { "timeout" } else { "abort" }, "n": 0, "peak": 0, "big": 0, "ms": 20000, "site": site});
         }
         start = at + 1;
         restarts += 1;
@@ -1214,6 +1237,12 @@ fn mutate(args: &[String]) {
     let mut rng = Rng::new(seed ^ 0x77);
     for bi in 0..nbases {
         let mut srng = rng.fork();
+        // (debugging aid: AMV_ONLY_HISTORY=k runs the campaign for the k-th history only)
+        if let Ok(only) = std::env::var("AMV_ONLY_HISTORY") {
+            if only.parse::<usize>().ok() != Some(bi) {
+                continue;
+            }
+        }
         let mut w = history(bi, &mut srng);
         if w.dead || w.reps.is_empty() {
             continue;
@@ -1326,7 +1355,7 @@ fn mutate(args: &[String]) {
             let n = bytes.len();
             let small = n <= 64;
             // position sample: all positions for small inputs and headers; a seeded sample otherwise
-            let budget = if thorough { 2000 } else { 48 };
+            let budget = if thorough { 300 } else { 48 };
             let positions: Vec<usize> = if n <= budget { (0..n).collect() } else {
                 let mut p: Vec<usize> = (0..(budget / 2).min(n)).collect();
                 while p.len() < budget { p.push(srng.below(n)); }
@@ -1358,7 +1387,7 @@ fn mutate(args: &[String]) {
                         }
                     }
                 }
-                for p in 0..n.min(if thorough { 2000 } else { 60 }) {
+                for p in 0..n.min(if thorough { 500 } else { 60 }) {
                     push(json!({"k":"trunc","p":p,"v":0,"fix":false}), "trunc");
                 }
                 if matches!(*name, "doc_raw" | "change" | "bundle" | "incremental" | "doc_twoheads") {
@@ -1374,7 +1403,7 @@ fn mutate(args: &[String]) {
                         let mut occ = 0;
                         while let Some(off) = bytes[from..].windows(sb.len()).position(|w| w == sb).map(|x| x + from) {
                             for (v, bad) in BADUTF8.iter().enumerate() {
-                                if bad.len() <= sb.len() && nut < (if thorough { 3000 } else { 260 }) {
+                                if bad.len() <= sb.len() && nut < (if thorough { 1200 } else { 260 }) {
                                     nut += 1;
                                     push(json!({"k":"utf8","p":off,"v":v,"fix":true}), "utf8-in-string");
                                     if bad.len() < sb.len() {
@@ -1470,7 +1499,16 @@ fn mutate(args: &[String]) {
                 let cnt = badcount.entry(key).or_insert(0usize);
                 *cnt += 1;
                 if *cnt <= 3 && bad.len() < 600 {
-                    bad.push(json!({"base": bn, "target": t, "kind": kind, "item": items[i], "o": o, "n": n, "peak": peak, "big": big, "ms": ms, "over": over}));
+                    // the offending input itself (replayable with `wirex feed <target> <hex>`)
+                    let input_hex = match items[i].get("s").and_then(|x| x.as_str()) {
+                        Some(st) => format!("str:{}", st),
+                        None => {
+                            let bi2 = items[i]["b"].as_u64().unwrap_or(0) as usize;
+                            mutate_bytes(&bases[bi2].1, &items[i]["m"]).filter(|b| b.len() <= 16384).map(hex::encode).unwrap_or_default()
+                        }
+                    };
+                    bad.push(json!({"base": bn, "target": t, "kind": kind, "item": items[i], "o": o, "n": n, "peak": peak, "big": big, "ms": ms, "over": over, "input": input_hex,
+                                    "site": r["site"].as_str().unwrap_or("")}));
                 }
             }
         }
@@ -1495,6 +1533,15 @@ fn main() {
         Some("roundtrip") => roundtrip(&args),
         Some("bloom") => bloom(&args),
         Some("bloomworker") => bloomworker(&args),
+        Some("feed") => {
+            // wirex feed <target> <hex | str:...> : run one input in this process (a crash is the observation)
+            let inp = args[3].clone();
+            let o = match inp.strip_prefix("str:") {
+                Some(st) => feed_str(&args[2], st, None),
+                None => feed(&args[2], &hex::decode(inp.trim()).expect("hex"), None),
+            };
+            println!("FEED {}", o);
+        }
         Some("mutate") => mutate(&args),
         Some("worker") => worker(&args),
         _ => {
